@@ -446,6 +446,7 @@ func TestScenarios(t *testing.T) {
 				}
 				synctest.Wait()
 				snapshotGroups(in, lg)
+				apiViews(in, lg)
 			}
 			if d := horizon - hx.SinceEpoch(); d > 0 {
 				time.Sleep(d)
@@ -491,6 +492,46 @@ func ms(t time.Time) int64 {
 		return -1
 	}
 	return int64(t.Sub(hx.Epoch) / time.Millisecond)
+}
+
+// apiViews records what GET /api/v2/alerts and GET /api/v2/alerts/groups report.
+func apiViews(in *inst.Instance, lg *inst.Log) {
+	var alerts []struct {
+		Labels map[string]string `json:"labels"`
+		Status struct {
+			State       string   `json:"state"`
+			SilencedBy  []string `json:"silencedBy"`
+			InhibitedBy []string `json:"inhibitedBy"`
+		} `json:"status"`
+	}
+	if in.Get("/api/v2/alerts", &alerts) == 200 {
+		out := []map[string]any{}
+		for _, a := range alerts {
+			n := nameOfLabels[canonLabels(a.Labels)]
+			out = append(out, map[string]any{"l": n, "state": a.Status.State, "nsil": len(a.Status.SilencedBy), "ninh": len(a.Status.InhibitedBy)})
+		}
+		sort.Slice(out, func(i, j int) bool { return out[i]["l"].(string) < out[j]["l"].(string) })
+		lg.Add(inst.Event{Ev: "api.alerts", Data: map[string]any{"alerts": out}})
+	}
+	var groups []struct {
+		Labels map[string]string `json:"labels"`
+		Alerts []struct {
+			Labels map[string]string `json:"labels"`
+		} `json:"alerts"`
+	}
+	if in.Get("/api/v2/alerts/groups", &groups) == 200 {
+		out := []map[string]any{}
+		for _, g := range groups {
+			names := []string{}
+			for _, a := range g.Alerts {
+				names = append(names, nameOfLabels[canonLabels(a.Labels)])
+			}
+			sort.Strings(names)
+			out = append(out, map[string]any{"g": g.Labels["g"], "alerts": names})
+		}
+		sort.Slice(out, func(i, j int) bool { return out[i]["g"].(string) < out[j]["g"].(string) })
+		lg.Add(inst.Event{Ev: "api.groups", Data: map[string]any{"groups": out}})
+	}
 }
 
 func snapshotGroups(in *inst.Instance, lg *inst.Log) {
